@@ -45,6 +45,13 @@ class ParserL(_BaseParser):
             del self.t[self.i + 2]
             del self.t[self.i]
             return _BaseParser.primary(self, no_struct)
+        if x.kind == "id" and x.text == "size_of" and self.at("::", 1) and self.at("<", 2) and self.peek(3).kind == "id" \
+                and self.at(">", 4) and self.at("(", 5) and self.at(")", 6):
+            # `size_of::<T>()`: the size of the word type in bytes
+            targ = self.peek(3).text
+            for _ in range(7):
+                self.next()
+            return N("sizeof", x.pos, targ=targ)
         return _BaseParser.primary(self, no_struct)
 
     def args(self):
@@ -56,6 +63,24 @@ class ParserL(_BaseParser):
             for _ in range(11):
                 self.next()
             return [N("sndclosure", p0.pos)]
+        # `|ambigs| ambigs.get(&symbol)` as the only argument (of `Option::and_then`): look-up in the map the option holds
+        if self.at("(") and self.at("|", 1) and self.peek(2).kind == "id" and self.at("|", 3) and self.peek(4).kind == "id" \
+                and self.peek(4).text == self.peek(2).text and self.at(".", 5) and self.at("get", 6) and self.at("(", 7):
+            p0 = self.peek(1)
+            for _ in range(8):
+                self.next()
+            key = self.expr()
+            self.expect(")")
+            self.expect(")")
+            return [N("getclosure", p0.pos, key=key)]
+        # `|b| *b.borrow()` as the only argument (of `Iterator::map`): the identity on bytes
+        if self.at("(") and self.at("|", 1) and self.peek(2).kind == "id" and self.at("|", 3) and self.at("*", 4) \
+                and self.peek(5).kind == "id" and self.peek(5).text == self.peek(2).text and self.at(".", 6) \
+                and self.at("borrow", 7) and self.at("(", 8) and self.at(")", 9) and self.at(")", 10):
+            p0 = self.peek(1)
+            for _ in range(11):
+                self.next()
+            return [N("derefclosure", p0.pos)]
         return _BaseParser.args(self)
 
 
@@ -155,6 +180,12 @@ class FnL(_BaseFn):
                 out.append(nm)
 
     def _assigned(self, n, decl, out):
+        if n.kind == "exprs" and n.e.kind == "mcall" and n.e.name == "insert" and len(n.e.args) == 2 \
+                and pm.self_path(n.e.recv) is not None:
+            r = pm.self_path(n.e.recv)
+            if r not in decl and r not in out:
+                out.append(r)
+            return
         if n.kind == "exprs" and n.e.kind == "mcall" and self.recv_key(n.e) is not None:
             return self._call_assigned(self.recv_key(n.e), n.e.args, decl, out)
         return _BaseFn._assigned(self, n, decl, out)
@@ -211,6 +242,27 @@ class FnL(_BaseFn):
             t2 = self.tmp()
             code.bind(t2, ("call", "Rs.expect (Rs.minByKeySnd %s)" % t1))
             return t2, self.ty_of_text(d["item"])
+        if e.name == "and_then" and len(e.args) == 1 and e.args[0].kind == "getclosure":
+            # `opt.and_then(|m| m.get(&k))` on an `Option<&HashMap<K, Vec<V>>>`
+            r, rt = self.expr(e.recv, code)
+            if not (isinstance(rt, TOption) and isinstance(rt.elem, TSeq) and isinstance(rt.elem.elem, TTuple)
+                    and len(rt.elem.elem.items) == 2):
+                self.err("`.and_then(|m| m.get(..))` on %r" % (rt,), e)
+            k_, kt = self.expr(e.args[0].key, code, rt.elem.elem.items[0])
+            if kt != rt.elem.elem.items[0]:
+                self.err("`HashMap::get` with a key of type %r" % (kt,), e)
+            return "%s.bind (fun m => Rs.hmGet m %s)" % (atom(r), atom(k_)), TOption(rt.elem.elem.items[1])
+        if e.name == "collect" and not e.args and e.recv.kind == "mcall" and e.recv.name == "chain" and len(e.recv.args) == 1 \
+                and e.recv.args[0].kind == "call" and e.recv.args[0].path == ["Some"] and e.recv.recv.kind == "mcall" \
+                and e.recv.recv.name == "map" and len(e.recv.recv.args) == 1 and e.recv.recv.args[0].kind == "derefclosure":
+            # `xs.into_iter().map(|b| *b.borrow()).chain(Some(y)).collect()`: the items of `xs`, then `y`
+            xs, xt = self.expr(e.recv.recv.recv, code)
+            if not isinstance(xt, TSeq):
+                self.err("`.map(|b| *b.borrow())` on %r" % (xt,), e)
+            y, yt = self.expr(e.recv.args[0].args[0], code, xt.elem)
+            if yt != xt.elem:
+                self.err("`.chain(Some(%r))` on items of type %r" % (yt, xt.elem), e)
+            return "%s ++ [%s]" % (atom(xs), y), xt
         k = self.recv_key(e)
         if k is not None and (pm.method_key(e) not in self.calls):
             return self.struct_call(k, self.calls[k], e.args, code, e)
@@ -219,6 +271,16 @@ class FnL(_BaseFn):
         return _BaseFn.mcall(self, e, code, expected)
 
     def expr_stmt(self, e, code):
+        if e.kind == "mcall" and e.name == "insert" and len(e.args) == 2 and pm.self_path(e.recv) is not None:
+            v = self.lookup(pm.self_path(e.recv), e)
+            if isinstance(v.ty, TSeq) and isinstance(v.ty.elem, TTuple) and len(v.ty.elem.items) == 2:
+                # `self.map.insert(k, v)` on a `HashMap` (the returned old value is dropped)
+                k_, kt = self.expr(e.args[0], code, v.ty.elem.items[0])
+                x_, xt = self.expr(e.args[1], code, v.ty.elem.items[1])
+                if kt != v.ty.elem.items[0] or xt != v.ty.elem.items[1]:
+                    self.err("`HashMap::insert` of (%r, %r) into %r" % (kt, xt, v.ty), e)
+                code.let(v.lean, "Rs.hmInsert %s %s %s" % (atom(v.lean), atom(k_), atom(x_)))
+                return
         if e.kind == "mcall" and self.recv_key(e) is not None:
             self.struct_call(self.recv_key(e), self.calls[self.recv_key(e)], e.args, code, e, as_stmt=True)
             return
@@ -248,11 +310,67 @@ class FnL(_BaseFn):
         return _BaseFn.let(self, s, code)
 
     def expr(self, e, code, expected=None):
+        if e.kind == "sizeof":
+            if e.targ not in self.word_types:
+                self.err("`size_of::<%s>()` of a type the spec does not know" % e.targ, e)
+            return "(%s / 8)" % self.word_types[e.targ], TInt("usize")
         if e.kind == "var" and e.name in self.local_struct_roots and not any(e.name in sc for sc in self.scopes):
             sname = self.local_struct_roots[e.name]
             vs = [self.lookup("%s.%s" % (e.name, f), e) for f, _ in self.structs[sname]]
             return tuple_val([v.lean for v in vs]), self.ty_of_text(sname)
         return _BaseFn.expr(self, e, code, expected)
+
+    def ty(self, t):
+        if t.kind not in ("tref", "tslice", "ttuple") and t.name == "HashMap" and len(t.args) == 2:
+            # `HashMap<K, V>`: its entry list (at most one entry per key); `get` = `Rs.hmGet`
+            return TSeq(TTuple([self.ty(t.args[0]), self.ty(t.args[1])]))
+        return _BaseFn.ty(self, t)
+
+    def rename_var(self, n, old, new):
+        """alpha-renaming of the loop variable `old` (no inner re-declaration of `old` is expected)"""
+        if isinstance(n, N):
+            if n.kind == "var" and n.name == old:
+                n.name = new
+            if n.kind == "let" and old in pm.pat_names(n.pat):
+                self.err("re-declaration of the renamed loop variable `%s`" % old, n)
+            for k, v in n.__dict__.items():
+                if k not in ("kind", "pos"):
+                    self.rename_var(v, old, new)
+        elif isinstance(n, (list, tuple)):
+            for x in n:
+                self.rename_var(x, old, new)
+
+    def for_(self, s, code):
+        it = s.iter
+        while it.kind == "paren":
+            it = it.e
+        # `for (i, x) in xs.enumerate()` on a slice's iterator = `xs.iter().enumerate()`
+        if it.kind == "mcall" and it.name == "enumerate" and not it.args and it.recv.kind == "var":
+            s = N("for", s.pos, pat=s.pat, body=s.body,
+                  iter=N("mcall", it.pos, name="enumerate", args=[], recv=N("mcall", it.pos, name="iter", args=[], recv=it.recv)))
+        # `for chunk in xs.chunks(n).into_iter()` (itertools): the groups are computed first (`Rs.itChunks`)
+        src_ = it.recv if (it.kind == "mcall" and it.name == "into_iter" and not it.args) else it
+        if src_.kind == "mcall" and src_.name == "chunks" and len(src_.args) == 1:
+            xs, xt = self.expr(src_.recv, code)
+            if not isinstance(xt, TSeq):
+                self.err("`.chunks(n)` on %r" % (xt,), s)
+            n_, nt = self.expr(src_.args[0], code, TInt("usize"))
+            if nt != TInt("usize"):
+                self.err("`.chunks(%r)`" % (nt,), s)
+            t = self.tmp()
+            code.bind(t, ("call", "Rs.itChunks %s %s" % (atom(xs), atom(n_))))
+            key = "%%chunks%d" % self.n_tmp
+            self.scopes[-1][key] = Var(key, t, TSeq(xt), False)
+            s = N("for", s.pos, pat=s.pat, body=s.body, iter=N("var", it.pos, name=key))
+        # a loop variable that shadows an outer variable (`for &w in wildcards` under `let w = word_size::<T>()`): renamed
+        if s.pat.kind == "pid" and s.pat.name != "_" and self.spec.get("shadow_fresh") \
+                and any(s.pat.name in sc for sc in self.scopes):
+            new = s.pat.name + "_"
+            while any(new in sc for sc in self.scopes):
+                new += "_"
+            self.rename_var(s.body, s.pat.name, new)
+            s = N("for", s.pos, pat=N("pid", s.pat.pos, name=new, mut=False), body=s.body, iter=s.iter)
+        return _BaseFn.for_(self, s, code)
 
     def macro(self, e, code, expected):
         if e.name == "vec" and not e.args:
@@ -296,6 +414,8 @@ class FnL(_BaseFn):
 
     # ---- a unit function whose body is one call without `;` ----------------------------------------------------------
     def seq(self, stmts, tail_node, code, where):
+        if tail_node is not None and isinstance(self.ret, TUnit) and tail_node.kind == "var" and tail_node.name == "self":
+            tail_node = None            # a builder method `-> &mut Self` that ends in `self`: the assigned fields are the result
         if tail_node is not None and isinstance(self.ret, TUnit) and tail_node.kind in ("mcall", "call"):
             stmts = list(stmts) + [N("exprs", tail_node.pos, e=tail_node)]
             tail_node = None
@@ -422,6 +542,115 @@ unit(name="SrcMyersLongMatches", props="properties C09, C10", file="src/pattern_
                                          "{it}.2.2; pure (((a, b, c), tx), o)) ({text}.length + 1) ({it}.1, {it}.2.1)",
                                 vars={"peq": "self.peq", "text": "text"}, item="(usize, usize)"),
                      theorem="RbV.Thm.GenSrcMyersLongMatches.findBestEnd_eq_model")])
+
+
+
+# `distance`, `find_all_end`, `find_best_end` of `impl_myers!` at the instance of simple.rs (`$DistType = T::DistType`, `$State =
+# State<T, T::DistType>`); `Matches::new` / `next` at this instance are genukk's unit `SrcMyersMatches`.
+SMATCH = "RbV.Gen.SrcMyersMatches."
+SSIMPLE = "RbV.Gen.SrcMyersSimple."
+unit(name="SrcMyersSimpleBest", props="property C09", file="src/pattern_matching/myers/myers_impl.rs",
+     imports=["RbV.Basic.RsSemWord", "RbV.Basic.RsSemGenlong", "RbV.Gen.SrcMyersState", "RbV.Gen.SrcMyersSimple", "RbV.Gen.SrcMyersMatches"],
+     word_types=pm.MYERS_WORDS, type_paths=dict(pm.MYERS_PATHS, **{"$DistType": "DistType"}), structs=pm.MYERS_STRUCTS,
+     functions=[dict(name="Myers::distance", lean="distance", header=M_DIST_HDR,
+                     self_fields=[("peq", "[T; 256]"), ("bound", "T"), ("m", "DistType")], params=[("text", "&[u8]")],
+                     ret="DistType",
+                     calls={"self.initial_state": dict(lean=SSIMPLE + "initialState", extra=["w", "wd"],
+                                                       args=["DistType", "DistType"], ret="State"),
+                            "self.step": dict(lean=SSIMPLE + "step", extra=["w", "wd"], self_args=["peq", "bound"],
+                                              args=["&mut State", "u8", "DistType"], ret=None),
+                            "state.known_dist": dict(lean="RbV.Gen.SrcMyersState.knownDist", extra=["w", "wd"],
+                                                     recv_args=["state.dist"], args=[], ret="Option<DistType>")},
+                     theorem="RbV.Thm.GenSrcMyersSimpleBest.distance_eq_model"),
+                dict(name="Myers::find_all_end", lean="findAllEnd", header=M_FAE_HDR,
+                     self_fields=[("peq", "[T; 256]"), ("bound", "T"), ("m", "DistType")],
+                     params=[("text", "&[u8]"), ("max_dist", "DistType")], ret="(State, Enumerate<u8>, DistType)",
+                     calls={"Matches::new": dict(lean=SMATCH + "new", extra=["w", "wd"], args=["&Myers", "&[u8]", "DistType"],
+                                                 ret="(State, Enumerate<u8>, DistType)")},
+                     theorem="RbV.Thm.GenSrcMyersSimpleBest.findAllEnd_eq_new"),
+                dict(name="Myers::find_best_end", lean="findBestEnd", header=M_FBE_HDR,
+                     self_fields=[("peq", "[T; 256]"), ("bound", "T"), ("m", "DistType")], params=[("text", "&[u8]")],
+                     ret="(usize, DistType)",
+                     calls={"self.find_all_end": dict(lean="findAllEnd", extra=["w", "wd"], self_args=["peq", "bound", "m"],
+                                                      args=["&[u8]", "DistType"], ret="(State, Enumerate<u8>, DistType)")},
+                     drain=dict(template="Rs.drain (fun st => do let (a, b, c, tx, o) ← " + SMATCH + "next w wd {peq} {bound} st.1.1 "
+                                         "st.1.2.1 st.1.2.2 st.2 {it}.2.2; pure (((a, b, c), tx), o)) ({text}.length + 1) "
+                                         "({it}.1, {it}.2.1)",
+                                vars={"peq": "self.peq", "bound": "self.bound", "text": "text"}, item="(usize, DistType)"),
+                     theorem="RbV.Thm.GenSrcMyersSimpleBest.findBestEnd_eq_model")])
+
+
+
+# ---- the constructors (task 2): `Myers::new` / `new_ambig` of simple.rs and long.rs, `MyersBuilder` --------------------------
+# `opt_ambigs: Option<&HashMap<u8, Vec<u8>>>` is `Option (List (Nat × List Nat))` (entry list), `opt_wildcards: Option<&[u8]>`
+# `Option (List Nat)`; the pattern iterator `P: IntoIterator<Item = C>, P::IntoIter: ExactSizeIterator` is the byte slice.
+NEW_HDR = ("pub fn new<P, C>(pattern: P) -> Self where C: Borrow<u8>, P: IntoIterator<Item = C>, P::IntoIter: ExactSizeIterator,")
+NEW_AMBIG_HDR = ("pub(crate) fn new_ambig<P, C>(pattern: P, opt_ambigs: Option<&HashMap<u8, Vec<u8>>>, opt_wildcards: Option<&[u8]>,) "
+                 "-> Self where C: Borrow<u8>, P: IntoIterator<Item = C>, P::IntoIter: ExactSizeIterator,")
+NEW_AMBIG_PARAMS = [("pattern", "&[u8]"), ("opt_ambigs", "Option<&AmbMap>"), ("opt_wildcards", "Option<&[u8]>")]
+AMB_ALIASES = {"ByteVec": "Vec<u8>", "AmbMap": "HashMap<u8, ByteVec>"}      # (pm's type parser does not split `>>`)
+S_MYERS = [("peq", "[T; 256]"), ("bound", "T"), ("m", "DistType"), ("states_store", "Vec<State>")]
+L_MYERS = [("peq", "Vec<Peq>"), ("m", "usize"), ("states_store", "Vec<State>")]
+
+unit(name="SrcMyersSimpleNew", props="properties C09, C10", file="src/pattern_matching/myers/simple.rs",
+     imports=["RbV.Basic.RsSemWord", "RbV.Basic.RsSemGenlong"], word_types=pm.MYERS_WORDS, type_paths=pm.MYERS_PATHS,
+     structs=pm.MYERS_STRUCTS, aliases=AMB_ALIASES,
+     functions=[dict(name="Myers::new_ambig", lean="newAmbig", header=NEW_AMBIG_HDR, params=NEW_AMBIG_PARAMS,
+                     ret="([T; 256], T, DistType, Vec<State>)", struct_fields={"Myers": S_MYERS}, shadow_fresh=True,
+                     theorem="RbV.Thm.GenSrcMyersNew.newAmbig_eq_model"),
+                dict(name="Myers::new", lean="new", header=NEW_HDR, params=[("pattern", "&[u8]")],
+                     ret="([T; 256], T, DistType, Vec<State>)",
+                     locals={},
+                     calls={"Self::new_ambig": dict(lean="newAmbig", extra=["w", "wd"],
+                                                    args=["&[u8]", "Option<&AmbMap>", "Option<&[u8]>"],
+                                                    ret="([T; 256], T, DistType, Vec<State>)")},
+                     theorem="RbV.Thm.GenSrcMyersNew.new_eq_model")])
+
+unit(name="SrcMyersLongCtor", props="properties C09, C10", file="src/pattern_matching/myers/long.rs",
+     imports=["RbV.Basic.RsSemWord", "RbV.Basic.RsSemGenlong"], word_types={"T": "w"}, type_paths={"T": "T"},
+     structs=LONG_STRUCTS, aliases=AMB_ALIASES,
+     functions=[dict(name="Myers::new_ambig", lean="newAmbig", header=NEW_AMBIG_HDR, params=NEW_AMBIG_PARAMS,
+                     ret="(Vec<Peq>, usize, Vec<State>)", struct_fields={"Myers": L_MYERS, "Peq": LONG_STRUCTS["Peq"]},
+                     locals={"peq": "Vec<Peq>", "i": "usize"}, shadow_fresh=True),      # translated; equality with `peqL` not proved yet
+                dict(name="Myers::new", lean="new", header=NEW_HDR, params=[("pattern", "&[u8]")],
+                     ret="(Vec<Peq>, usize, Vec<State>)",
+                     calls={"Self::new_ambig": dict(lean="newAmbig", extra=["w"],
+                                                    args=["&[u8]", "Option<&AmbMap>", "Option<&[u8]>"],
+                                                    ret="(Vec<Peq>, usize, Vec<State>)")},
+                     theorem="RbV.Thm.GenSrcMyersNew.long_new_eq_newAmbig")])
+
+
+
+BUILDER_F = [("ambigs", "AmbMap"), ("wildcards", "Vec<u8>")]
+BUILD_HDR = ("pub fn build<T, C, P>(&self, pattern: P) -> Myers<T> where T: BitVec, C: Borrow<u8>, P: IntoIterator<Item = C>, "
+             "P::IntoIter: ExactSizeIterator,")
+BUILD_LONG_HDR = ("pub fn build_long<T, C, P>(&self, pattern: P) -> MyersLong<T> where T: BitVec, C: Borrow<u8>, "
+                  "P: IntoIterator<Item = C>, P::IntoIter: ExactSizeIterator,")
+unit(name="SrcMyersBuilder", props="properties C09, C10", file="src/pattern_matching/myers/builder.rs",
+     imports=["RbV.Basic.RsSemWord", "RbV.Basic.RsSemGenlong", "RbV.Gen.SrcMyersSimpleNew", "RbV.Gen.SrcMyersLongCtor"],
+     word_types=pm.MYERS_WORDS, type_paths=pm.MYERS_PATHS, structs=dict(pm.MYERS_STRUCTS, Peq=[("peq", "[T; 256]"), ("bound", "T")]),
+     aliases=AMB_ALIASES,
+     functions=[dict(name="MyersBuilder::ambig", lean="ambig",
+                     header="pub fn ambig<I, B>(&mut self, byte: u8, equivalents: I) -> &mut Self where I: IntoIterator<Item = B>, B: Borrow<u8>,",
+                     self_fields=BUILDER_F, params=[("byte", "u8"), ("equivalents", "&[u8]")], ret=None, locals={"eq": "Vec<u8>"},
+                     theorem="RbV.Thm.GenSrcMyersNew.ambig_eq_model"),
+                dict(name="MyersBuilder::text_wildcard", lean="textWildcard",
+                     header="pub fn text_wildcard(&mut self, wildcard: u8) -> &mut Self",
+                     self_fields=BUILDER_F, params=[("wildcard", "u8")], ret=None,
+                     theorem="RbV.Thm.GenSrcMyersNew.textWildcard_eq_model"),
+                dict(name="MyersBuilder::build", lean="build", header=BUILD_HDR, self_fields=BUILDER_F,
+                     params=[("pattern", "&[u8]")], ret="([T; 256], T, DistType, Vec<State>)",
+                     calls={"Myers::new_ambig": dict(lean="RbV.Gen.SrcMyersSimpleNew.newAmbig", extra=["w", "wd"],
+                                                     args=["&[u8]", "Option<&AmbMap>", "Option<&[u8]>"],
+                                                     ret="([T; 256], T, DistType, Vec<State>)")},
+                     theorem="RbV.Thm.GenSrcMyersNew.build_eq_model"),
+                dict(name="MyersBuilder::build_long", lean="buildLong", header=BUILD_LONG_HDR, self_fields=BUILDER_F,
+                     params=[("pattern", "&[u8]")], ret="(Vec<Peq>, usize, Vec<State>)",
+                     structs={"State": [("pv", "T"), ("mv", "T"), ("dist", "usize")]},
+                     calls={"MyersLong::new_ambig": dict(lean="RbV.Gen.SrcMyersLongCtor.newAmbig", extra=["w"],
+                                                         args=["&[u8]", "Option<&AmbMap>", "Option<&[u8]>"],
+                                                         ret="(Vec<Peq>, usize, Vec<State>)")},
+                     theorem="RbV.Thm.GenSrcMyersNew.buildLong_eq_model")])
 
 
 # ================================================================================================== self-test / CLI
